@@ -89,6 +89,7 @@ def run(model: Model, rep: Report) -> None:
     char_width_rule(model, rep, "C07-R6")
     _decode_fsm(model, rep)
     _tounicode_targets(model, rep)
+    _truetype_cmap(model, rep)
     # collection Unicode maps are memoised per name: the stored pair must not depend on the orientation requested first (shared with C12-R7)
     from .c12 import memo_purity_rule
 
@@ -190,3 +191,14 @@ def _tounicode_targets(model: Model, rep: Report) -> None:
     h = model.func(F + "PDFCIDFont.get_cmap_from_spec")
     sh = "".join(unparse(h.node).split())
     r10.check("cmap_name=self._get_cmap_name(spec,strict)" in sh and "returnCMapDB.get_cmap(cmap_name)" in sh and "exceptCMapDB.CMapNotFoundase:" in sh and sh.endswith("returnCMap()"), site(h), h.qualname, "the named CMap is loaded; an unknown name falls back to an empty CMap (strict: PDFFontError)", why="changed")
+
+
+def _truetype_cmap(model: Model, rep: Report) -> None:
+    r11 = rep.rule("C07-R11", "NORMFORM", "embedded TrueType cmap (format 4): glyph ids are computed modulo 65536 (idDelta is signed), both with and without idRangeOffset; the Unicode map is the inverse of char -> glyph", 3)
+    f = model.func(F + "TrueTypeFont.create_unicode_map")
+    asg = [n for n in walk_no_nested(f.node) if isinstance(n, ast.Assign) and isinstance(n.targets[0], ast.Subscript) and unparse(n.targets[0].value) == "char2gid" and "idd" in unparse(n.value)]
+    masked = [n for n in asg if isinstance(n.value, ast.BinOp) and isinstance(n.value.op, ast.BitAnd) and isinstance(n.value.right, ast.Constant) and n.value.right.value == 0xFFFF]
+    r11.check(len(asg) == 2 and len(masked) == 2, site(f, asg[0]) if asg else site(f), f.qualname, "char2gid[c] = (<offset or code> + idDelta) & 0xFFFF in both branches", why=f"{[unparse(n)[:60] for n in asg]}: without the 16-bit wrap a negative sum (idDelta is read as a signed short) gives a negative glyph id and the character is lost")
+    s_ = "".join(unparse(f.node).split())
+    r11.check("struct.unpack('>%dh'%segcount,fp.read(2*segcount))" in s_, site(f), f.qualname, "idDelta is unpacked as signed 16-bit values", why="idDelta format changed")
+    r11.check("forchar,gidinchar2gid.items():unicode_map.add_cid2unichr(gid,char)" in s_.replace("for(char,gid)in", "forchar,gidin"), site(f), f.qualname, "the Unicode map sends each glyph id back to its character code", why="inverse map changed")
